@@ -53,6 +53,8 @@ def do_request(tree, kind, cls):
             sig.append([str(e) for e in m.equations])
             sig.append([str(e) for e in m.initial_equations])
             sig.append(list(m.outputs))
+            sig.append([(v.symbol.name(), str(v.value), str(v.start)) for k in ("constants", "parameters", "states", "alg_states")
+                        for v in getattr(m, k)])
             return ("ok", canon.digest(sig))
         if kind == "sympy":
             from pymoca.backends.sympy import generator as sg
@@ -171,6 +173,57 @@ def generated_libs(rng, count):
         yield L
 
 
+def package_libs(rng, count):
+    """package libraries: package constants referenced by dotted and enclosing-scope names from
+    functions and models, nested packages, qualified / renaming / unqualified imports."""
+    for k in range(count):
+        g, h, kq = round(rng.uniform(1, 20), 2), rng.randint(2, 9), rng.randint(2, 9)
+        tags = set()
+        parts = ["package P\n  constant Real g = %s;\n  constant Real h = %d;\n" % (g, h)]
+        classes = []
+        if rng.random() < 0.8:
+            body = rng.choice(["m * P.g + h", "m * g", "P.g - m * P.h", "m + P.Q.k"])
+            parts.append("  function weight\n    input Real m;\n    output Real w;\n  algorithm\n    w := %s;\n  end weight;\n" % body)
+            parts.append("  model Ball\n    parameter Real m = %d;\n    Real f;\n  equation\n    f = weight(m);\n  end Ball;\n" % rng.randint(1, 5))
+            classes.append("P.Ball")
+            tags.add("function-referencing-package-constant")
+        parts.append("  model Drop\n    Real v(start = 0);\n  equation\n    der(v) = %s;\n  end Drop;\n" % rng.choice(["P.g", "g - h", "P.g * P.h", "P.Q.k + g"]))
+        classes.append("P.Drop")
+        parts.append("  package Q\n    constant Real k = %d;\n    model Inner\n      Real z;\n    equation\n      z = %s;\n    end Inner;\n  end Q;\n" % (
+            kq, rng.choice(["P.g * k", "k + h", "P.Q.k * 2"])))
+        classes.append("P.Q.Inner")
+        if "P.Ball" in classes and rng.random() < 0.6:
+            parts.append("  model User\n    Q.Inner i;\n    Ball b;\n    Real s;\n  equation\n    s = i.z + b.f + g;\n  end User;\n")
+            classes.append("P.User")
+        parts.append("end P;\n")
+        if rng.random() < 0.5:
+            parts.append("package A\n  model X\n    Real a;\n  equation\n    a = 1;\n  end X;\nend A;\n"
+                         "package B\n  model Y\n    Real b;\n  equation\n    b = 2;\n  end Y;\nend B;\n")
+            form = rng.choice(["two-unqualified", "qualified", "renaming", "one-unqualified"])
+            if form == "two-unqualified":
+                imp, cx, cy = "  import A.*;\n  import B.*;\n", "X", "Y"
+            elif form == "qualified":
+                imp, cx, cy = "  import A.X;\n  import B.Y;\n", "X", "Y"
+            elif form == "renaming":
+                imp, cx, cy = "  import XX = A.X;\n  import B.Y;\n", "XX", "Y"
+            else:
+                imp, cx, cy = "  import A.*;\n", "X", "B.Y"
+            if rng.random() < 0.5:
+                parts.append("model UsesImports\n%s  %s x;\n  %s y;\n  Real t;\nequation\n  t = x.a + y.b;\nend UsesImports;\n" % (imp, cx, cy))
+                classes.append("UsesImports")
+                tags.add("import-in-model:" + form)
+            else:
+                # the imports belong to an enclosing package of the flattened model
+                parts.append("package Pk\n%s  model M\n    %s x;\n    %s y;\n    Real t;\n  equation\n    t = x.a + y.b;\n  end M;\n"
+                             "  model N\n    %s x2;\n  end N;\nend Pk;\n" % (imp, cx, cy, cx))
+                classes += ["Pk.M", "Pk.N"]
+                tags.add("import-in-enclosing-package:" + form)
+        L = Lib("package-library-%d" % k, ["".join(parts)])
+        L.classes = classes
+        L.tags = tags
+        yield L
+
+
 def cli_check(ctx, lib, models, k):
     """main(-m A -m B) must count like main(-m A) + main(-m B) (no file-level errors here)."""
     import tools.compiler as comp
@@ -209,6 +262,45 @@ def cli_check(ctx, lib, models, k):
                           {"what": "cli", "label": lib.label, "texts": lib.texts, "models": models, "target": target})
     import shutil
     shutil.rmtree(d, ignore_errors=True)
+
+
+def cli_check_casadi(ctx, rng, k):
+    """-t casadi: every -m is located through a file named after the model; a model without such a
+    file must fail the same way alone and together with others, wherever it stands in the list."""
+    import shutil
+    import tools.compiler as comp
+    d = os.path.join(ctx.work, "clic%d" % k)
+    os.makedirs(d, exist_ok=True)
+    files = {"A.mo": "model A\n  Real x;\nequation\n  der(x) = -x;\nend A;\n",
+             "B.mo": "model B\n  Real y;\nequation\n  y = 2;\nend B;\n",
+             "Extra.mo": "model Hidden\n  Real h;\nequation\n  h = 1;\nend Hidden;\n"}
+    for n, t in files.items():
+        with open(os.path.join(d, n), "w") as f:
+            f.write(t)
+    models = rng.sample(["A", "B", "Hidden", "Nowhere"], rng.randint(2, 3))
+
+    def run(ms):
+        argv = [d]
+        for m in ms:
+            argv += ["-m", m]
+        argv += ["-t", "casadi"]
+        try:
+            return ("exit", comp.main(argv))
+        except SystemExit as e:
+            return ("sysexit", e.code)
+        except Exception as e:
+            return ("exc", type(e).__name__)
+    try:
+        single = [run([m]) for m in models]
+        together = run(models)
+        ctx.monitor("cli_invocations", len(models) + 1)
+        ctx.cover("cli:casadi")
+        if all(s_[0] == "exit" for s_ in single) and together != ("exit", sum(s_[1] for s_ in single)):
+            ctx.violation("C05:cli:casadi:together-differs-from-alone",
+                          "main(-t casadi -m %s) -> %s but alone %s" % (" -m ".join(models), together, single),
+                          {"what": "cli-casadi", "models": models, "files": files, "label": "cli-casadi", "texts": list(files.values())})
+    finally:
+        shutil.rmtree(d, ignore_errors=True)
 
 
 KINDS = ["flatten", "flatten", "casadi", "sympy", "xml"]
@@ -269,12 +361,26 @@ def run_shard(ctx):
         if rng.random() < 0.15 and len(cl) >= 2:
             ms = rng.sample(cl, 2) if rng.random() < 0.7 else [cl[0], cl[0]]
             ctx.guarded(cli_check, ctx, lib, ms, ctx.cases, timeout=120)
+    # (b2) package libraries (constants, functions, imports)
+    for lib in package_libs(ctx.subrng("pkg"), ctx.n(200, 6000)):
+        if ctx.out_of_time():
+            break
+        cl = lib.classes
+        seq = [(rng.choice(KINDS + ["casadi", "casadi"]), rng.choice(cl)) for _ in range(rng.randint(2, 6 if ctx.tier == "thorough" else 4))]
+        ok = ctx.guarded(run_sequence, ctx, lib, seq, "package-library", timeout=120)
+        ctx.case({"t": lib.texts, "s": seq}, bool(ok), None)
+        for t in lib.tags:
+            ctx.cover("pkg:" + t)
     # (c) CLI on test models as well
     for lib in work[:6]:
         if ctx.out_of_time() or len(lib.classes) < 2:
             continue
         ms = rng.sample(lib.classes, 2)
         ctx.guarded(cli_check, ctx, lib, ms, ctx.cases, timeout=120)
+    for k in range(3 if ctx.quick() else 40):
+        if ctx.out_of_time():
+            break
+        ctx.guarded(cli_check_casadi, ctx, rng, k, timeout=300)
     ctx.extra["generated_libraries_available"] = _have_mlib()
 
 
@@ -289,6 +395,10 @@ def _have_mlib():
 def replay(ctx, case):
     logging.disable(logging.CRITICAL)
     lib = Lib(case["label"], case["texts"])
+    if case["what"] == "cli-casadi":
+        for k in range(10):
+            cli_check_casadi(ctx, ctx.subrng("r", k), k)
+        return
     if case["what"] == "cli":
         cli_check(ctx, lib, case["models"], 0)
     else:
